@@ -109,6 +109,9 @@ func printResult(res *HarnessResult) {
 	for _, k := range sortedKeys(res.Inconclusive) {
 		fmt.Printf("   INCONCLUSIVE %s x%d\n", k, res.Inconclusive[k])
 	}
+	for _, k := range sortedKeys(res.Cuts) {
+		fmt.Printf("   CUT %s x%d\n", k, res.Cuts[k])
+	}
 	for i, v := range res.Violations {
 		if i >= 10 {
 			fmt.Printf("   ... %d more\n", len(res.Violations)-10)
